@@ -66,7 +66,7 @@ where
     let cj = |d: Value| json!({"case": c, "key": key.id, "hidden": hidden, "detail": d});
     let mut st = (c.seed as u64) << 6 | 1;
     let bases = Bases::generate(pk, n);
-    let vals: Vec<Integer> = (0..n).map(|i| attr(c.classes[i], &mut st)).collect();
+    let vals: Vec<Integer> = (0..n).map(|i| attr(c.classes[i % c.classes.len()], &mut st)).collect();
     let msgs: Vec<CL03Message> = vals.iter().cloned().map(CL03Message::new).collect();
     let revealed: Vec<CL03Message> = revealed_idx.iter().map(|&i| msgs[i].clone()).collect();
     let use_tp = c.trusted && cx.tp.is_some();
@@ -237,7 +237,7 @@ where
 pub fn run(ctx: &Ctx, rep: &Report) -> Meta {
     let suite = ClSuite::CL1024;
     let (keys, tp) = std::thread::scope(|s| {
-        let h = s.spawn(|| CL03CommitmentPublicKey::generate::<CL1024Sha256>(None, Some(5)));
+        let h = s.spawn(|| CL03CommitmentPublicKey::generate::<CL1024Sha256>(None, Some(8)));
         let keys = key_pool(suite, ctx.tier.pick(2, 4), ctx.tier.pick(4, 8), ctx.seed);
         (keys, h.join().ok())
     });
@@ -251,6 +251,17 @@ pub fn run(ctx: &Ctx, rep: &Report) -> Meta {
         for mask in 1u8..(1 << n) {
             k += 1;
             fixed.push(Case { key: (k * 9973) as u16, n, hidden_mask: mask, trusted: k % 3 == 0, classes: vec![5, 4, 5, (k % 6) as u8, 5], seed: (ctx.seed as u32).wrapping_add(k), leaf_edits: ctx.tier.pick(16, 0) });
+        }
+    }
+    for n in [6usize, 8] {
+        for mask in [1u8, 1 << (n - 1), ((1u16 << n) - 1) as u8, 0b10101010 & (((1u16 << n) - 1) as u8), 0b00100100] {
+            k += 1;
+            let mut c = fixed[0].clone();
+            c.key = (k * 9973) as u16;
+            c.n = n;
+            c.hidden_mask = mask;
+            c.seed = (ctx.seed as u32).wrapping_add(500 + k);
+            fixed.push(c);
         }
     }
     par_items(ctx, rep, "every-hidden-set", &fixed, |c| with_cl!(suite, CS => check_one::<CS>(rep, "every-hidden-set", c, &cx)));
@@ -284,7 +295,7 @@ pub fn run(ctx: &Ctx, rep: &Report) -> Meta {
 pub fn replay(ctx: &Ctx, rep: &Report, ck: &str, case: &Value) -> CheckResult {
     let c: Case = serde_json::from_value(case["case"].clone()).map_err(|e| Fail { check: ck.into(), site: "replay-parse".into(), msg: e.to_string(), case: case.clone() })?;
     let keys = key_pool(ClSuite::CL1024, 0, 3, ctx.seed);
-    let tp = if c.trusted { Some(CL03CommitmentPublicKey::generate::<CL1024Sha256>(None, Some(5))) } else { None };
+    let tp = if c.trusted { Some(CL03CommitmentPublicKey::generate::<CL1024Sha256>(None, Some(8))) } else { None };
     let cx = Ctxt { keys, tp };
     check_one::<CL1024Sha256>(rep, ck, &c, &cx)
 }
